@@ -342,6 +342,33 @@ def search(ctx):
         ctx.tried("voxel", (round(r, 4),))
         if errs[-1] > 0.2 or errs[-1] > errs[0] + 0.02:
             ctx.violation("C20:voxel", "voxel volume does not converge: relative errors %r" % (errs,), dict(kind="voxel", r=r, c=c))
+    # ellipsoids given WITH an orientation (compound Euler angles): whatever containment convention the code follows (the source notes
+    # that rotations are not applied), the reported box contains every point reported inside and the voxel volume converges to
+    # 4/3 pi a b c, which no rotation changes
+    for j in range(ctx.n(6, 40)):
+        ax = np.array([float(rng.uniform(0.3, 0.6)), float(rng.uniform(0.6, 1.0)), float(rng.uniform(1.1, 1.6))])[rng.permutation(3)]
+        rot = [(0.7, 1.1, 0.4), (math.pi / 2, math.pi / 2, 0.0), tuple(float(v) for v in rng.uniform(-3, 3, size=3))][j % 3]
+        cen = rng.normal(size=3)
+        ctx.tried("ellipsoid-rotated", (tuple(np.round(ax, 3)), tuple(np.round(rot, 3))))
+        info = dict(kind="ellipsoid-rotated", r=ax.tolist(), rotation=list(rot), center=cen.tolist())
+        try:
+            el = Ellipsoid(n=1.5, r=tuple(ax), center=tuple(cen), rotation=rot)
+            P = rng.uniform(-1.7, 1.7, size=(4000, 3)) + cen
+            ins = np.asarray(el.contains(P)).ravel().astype(bool)
+            b = np.asarray(el.bounds, dtype=float)
+            outside = ins & ~np.all((P >= b[:, 0] - 1e-12) & (P <= b[:, 1] + 1e-12), axis=1)
+            if outside.any():
+                ctx.violation("C20:bounds:ellipsoid-rotated", "Ellipsoid r=%s rotation=%s: %d of %d points reported inside lie outside the reported bounds %s" % (
+                    np.round(ax, 3).tolist(), np.round(rot, 3).tolist(), int(outside.sum()), int(ins.sum()), np.round(b, 3).tolist()), dict(point=P[outside][0].tolist(), **info))
+                continue
+            spv = float(ax.min() / 12)
+            vv = np.asarray(el.voxelate(spv))
+            vol, want = float((vv != 0).sum()) * spv ** 3, 4 / 3 * math.pi * float(ax.prod())
+            if not (abs(vol - want) <= 0.05 * want):
+                ctx.violation("C20:voxel:ellipsoid-rotated", "Ellipsoid r=%s rotation=%s: voxel volume %.4f at spacing %.3f, analytic %.4f" % (
+                    np.round(ax, 3).tolist(), np.round(rot, 3).tolist(), vol, spv, want), info)
+        except Exception as ex:
+            ctx.violation("C20:ellipsoid-rotated-raises:%s" % type(ex).__name__, "rotated ellipsoid raised %r" % (ex,), info)
     # many points in ONE call (a fine voxel grid, a long point list): every point is classified, whatever the size of the
     # request -- sizes just above powers of two and not a multiple of anything convenient
     sizes = [2 ** 18 + 1, 300007] if ctx.tier == "quick" else [2 ** 16 + 3, 2 ** 18 + 1, 300007, 2 ** 19 + 5, 700001, 2 ** 20 + 7]
